@@ -377,7 +377,7 @@ fn gen_c09(r: &mut Rng, idx: u64) -> Vec<Op> {
     // a stack made by init_stack (the library knows which area that is) besides the hand-made one
     ops.push(Op::InitStack { len: 256 });
     for mask in 0..8u32 {
-        for path in 0..20u32 {
+        for path in 0..21u32 {
             cells.push((mask, path));
         }
     }
@@ -487,6 +487,11 @@ fn gen_c09(r: &mut Rng, idx: u64) -> Vec<Op> {
             }
             19 => {
                 ops.push(Op::OnInitStack { mask, kind: r.pick(&["push", "call", "push", "call", "pop", "ret"]).to_string() });
+            }
+            20 => {
+                let s0 = scratch;
+                scratch += 0x1000;
+                ops.push(Op::FetchStraddle { at: s0, first: r.range(1, 4), mask });
             }
             18 => {
                 // a fresh area starts with the default rights whatever stood at its address before: an area is
